@@ -6,8 +6,13 @@ HOOK_COMMITS = subprocess.run(
     ["git", "-C", "/repo", "log", "--format=%H %s", "--grep", "^verif hook"],
     capture_output=True, text=True).stdout.strip().splitlines()
 
-A1 = ("Assumes A1 (each actix handler holds the AppState mutex for its whole body, so request-level "
-      "interleavings are all the behaviours threads could produce). Sampling, not proof.")
+A1 = ("Relies on A1 (each actix handler holds the AppState mutex for its whole body, so request-level "
+      "interleavings are all the behaviours threads could produce); A1 itself is checked by the thread-level engine E5 "
+      "of the C08 check (real handlers on simulated threads, linearizability). Sampling, not proof.")
+
+A1T = ("Request-level engines rely on A1 (handlers hold the AppState mutex for their whole body); engine E5 of this very check "
+       "does not: it runs a textual shadow copy of rotala/src/http/{uist,jura}.rs (std Mutex replaced by the simulator's) on "
+       "simulated threads. Scheduling points are lock operations only; E5 prices are on a 0.25 grid. Sampling, not proof.")
 
 A3 = ("The broker talks to the server only through the harness's SimClient (the UistClient trait is the seam; per request "
       "the future is eager, lazy or Pending-delayed, and insert_order requests can be lost with Err returned); the reqwest "
@@ -19,7 +24,7 @@ CHECKS = {
           "The real StaticWeightStrategy runs its own while-has_next loop (a request budget turns a loop that never ends into a finite, replayable violation) or is stepped by the harness with withdrawals interleaved; the history must have exactly N snapshots dated by the clock after each tick, portfolio_value must equal the broker's total value (stepped) and the wire-fed ledger valuation (own loop), net_cash_flow must equal deposits - successful withdrawals, and in constant-price zero-spread worlds every snapshot must equal the deposit.",
           A3, "5/E4/C16"),
   "C20": ("E2 wire twin", "seeded differential simulation: in-process twin vs in-memory actix JSON service",
-          "The same interleaved request sequence (all seven Uist / six Jura routes, unknown backtests and datasets, JSON edge values, non-ASCII symbols, client-set order ids) is applied to an in-process AppState and to the real actix handlers behind an in-memory service; status, decoded bodies (1e-12 on floats) and the state digests behind both are compared after every request; Order/Trade/Fill/quote round trips are checked.",
+          "The same interleaved request sequence (all seven Uist / six Jura routes, unknown backtests and datasets, JSON edge values, non-ASCII symbols, client-set order ids) is applied to an in-process AppState and to the real actix handlers behind an in-memory service; status, decoded bodies (1e-12 on floats) and the state digests behind both are compared after every request; Order/Trade/Fill/quote round trips are checked; on Uist the library's own TestClient is driven as a third twin through the same history.",
           A1, "5/E2/C20"),
   "C04": ("E3 broker", "seeded simulation of broker operation histories against an independent wire-fed ledger",
           "A real UistBroker over the simulated transport (direct or in-memory JSON, eager/lazy/delayed futures) runs seeded histories of deposit/withdraw/send/liquidate/check/diff on datasets with gaps and price jumps; after every operation cash must equal deposits - withdrawals -/+ the trades the server returned.",
@@ -53,11 +58,11 @@ CHECKS = {
           "Structural conservation invariants (ids unique for life, admitted exactly once, at most one full fill, delete removes exactly one, admitted = filled + cancelled + resting) checked after every operation of long mixed histories with bad-cancel faults.",
           A1, "5/E1/C03"),
   "C07": ("E1 exchange+server", "seeded simulation of the server clock under client interleavings",
-          "Per backtest the k-th tick must do exactly what a clone of the exchange does on the harness's own row k (differential oracle), report has_next iff k<N and leave clock/fetch_quotes/now on date k+1; loop clients tick to the end (bounded liveness: exactly N ticks), others tick past it; other clients interleave; datasets are loaded date by date or symbol by symbol, with negative, huge and irregular dates.",
+          "Per backtest the k-th tick must do exactly what a clone of the exchange does on the harness's own row k (differential oracle), report has_next iff k<N and leave clock/fetch_quotes/now on date k+1; loop clients tick to the end (bounded liveness: exactly N ticks), others tick past it; a created backtest must answer every later request; other clients interleave; datasets are loaded date by date or symbol by symbol, with negative, huge and irregular dates.",
           A1, "5/E1/C07"),
-  "C08": ("E1 exchange+server", "seeded client scheduling (uniform and PCT-style) with digests and solo re-runs",
-          "Ids are compared with every id ever handed out; after every request the digest of every other backtest must be unchanged; unknown targets must be rejected without effect; each backtest's response stream is compared with a solo re-run on a fresh server.",
-          A1, "5/E1/C08"),
+  "C08": ("E1 exchange+server, E2 twins, E5 threads", "seeded client scheduling (uniform and PCT-style) with digests and solo re-runs; seeded thread scheduling of the real handlers with a linearizability oracle",
+          "Request level: ids are compared with every id ever handed out; after every request the digest of every other backtest must be unchanged; unknown targets (also near-miss dataset names) must be rejected without effect; a created backtest never vanishes; each backtest's response stream is compared with a solo re-run on a fresh server; TestClient runs as a third twin. Thread level: 2-4 simulated threads drive the real Uist and Jura actix handlers on one shared state, a seeded scheduler decides every lock hand-over, and the history must be linearizable against sequential in-process execution (also: no deadlock, no panic).",
+          A1T, "5/E1/C08, 12.7"),
   "C18": ("E1 exchange+server", "seeded simulation with the property's IOC/GTC/trigger table as executable oracle",
           "Every Jura tick is compared with the property's table (one-shot IOC with 10% slippage, resting GTC, four trigger directions, child order kind/fields/fresh id announced, child not eligible on the firing tick) over all eight constructors plus deserialised orders with is_market=false and trigger_px != limit_px; what the exchange did structurally (who left the book, who appeared) is observed from snapshots.",
           A1, "5/E1/C18"),
